@@ -41,9 +41,10 @@ def prepare(ctx):
 
 
 def gen(rng):
-    return ["race run seed=%d apps=%d conns=%d msgs=%d exit=%s verdicts=%s" % (
+    return ["race run seed=%d apps=%d conns=%d msgs=%d exit=%s verdicts=%s overlap=%d" % (
         rng.randint(1, 10 ** 6), rng.choice([1, 2, 2, 3, 4]), rng.choice([2, 3, 4, 6, 8]), rng.choice([20, 40, 60, 100]),
-        rng.choice(["busy", "busy", "idle", "none"]), rng.choice(["503,409,410", "503,409,410", "409", "410", "503", "-"]))]
+        rng.choice(["busy", "busy", "idle", "none"]), rng.choice(["503,409,410", "503,409,410", "409", "410", "503", "-"]),
+        rng.choice([0, 1]))]
 
 
 def plan(ctx):
